@@ -78,7 +78,7 @@ func hasEmptyKey(n *gen.Node) bool {
 }
 
 func genCfg(h *rt.H) *gen.Cfg {
-	return &gen.Cfg{Depth: h.Param("D", 2), Width: h.Param("W", 2), MaxNode: h.Param("K", 4), StrLen: h.Param("S", 1), Leaves: h.Param("L", 4), ASCII: h.Param("ASCII", 0) == 1}
+	return &gen.Cfg{Depth: h.Param("D", 2), Width: h.Param("W", 2), MaxNode: h.Param("K", 4), StrLen: h.Param("S", 1), Leaves: h.Param("L", 4), ASCII: h.Param("ASCII", 0) == 1, Small: h.Param("SMALL", 0) == 1}
 }
 
 // newEncoder creates the codec's encoder; for JSON the three options are chosen symbolically.
@@ -91,6 +91,10 @@ func newEncoder(h *rt.H, c *codec, out *sink) structform.Visitor {
 		return v
 	}
 	return c.newVisitor(out)
+}
+
+func newExtEncoder(c *codec, out *sink) structform.ExtVisitor {
+	return structform.EnsureExtVisitor(c.newVisitor(out))
 }
 
 // roundTrip: encode a generated value, decode the bytes (library parser for C01,
